@@ -363,7 +363,79 @@ def k_batch(params):
     return res(evals=n_ev, nontrivial=n_ev, viol=viol[:3])
 
 
-KINDS = {"patterns": k_patterns, "pattern_one": k_pattern_one, "analytic": k_analytic, "batch": k_batch}
+def k_cr3bp(params):
+    """(iii) end to end: SynodicMap.compute on a propagated CR3BP orbit against crossings of an independent reference integration of the same orbit"""
+    from hiten.system.base import System
+    from hiten.system.orbits import HaloOrbit
+    from hiten.system.maps.synodic import SynodicMap
+    from scipy.integrate import solve_ivp
+    from scipy.optimize import brentq
+
+    system = System.from_bodies("earth", "moon")
+    mu = float(system.mu)
+    orbit = HaloOrbit(system.get_libration_point(params["point"]), amplitude_z=params["amp"], zenith="southern")
+    orbit.correct()
+    steps = params["steps"]
+    orbit.propagate(steps=steps)
+    x0 = np.array(orbit.initial_state, dtype=float)
+    T = float(orbit.period)
+
+    def f(t, s_):
+        x, y, z, vx, vy, vz = s_
+        r1 = math.sqrt((x + mu) ** 2 + y * y + z * z)
+        r2 = math.sqrt((x - 1 + mu) ** 2 + y * y + z * z)
+        return [vx, vy, vz, 2 * vy + x - (1 - mu) * (x + mu) / r1 ** 3 - mu * (x - 1 + mu) / r2 ** 3, -2 * vx + y - (1 - mu) * y / r1 ** 3 - mu * y / r2 ** 3, -(1 - mu) * z / r1 ** 3 - mu * z / r2 ** 3]
+    dense = solve_ivp(f, (0.0, T), x0, method="DOP853", rtol=1e-13, atol=1e-14, dense_output=True)
+    viol = []
+    n = 0
+    nontriv = 0
+    idx = {"x": 0, "y": 1, "z": 2, "vx": 3, "vy": 4, "vz": 5}
+    h = T / (steps - 1)
+    for axis, off, plane in params["sections"]:
+        for direction in (None, 1, -1):
+            for interp_note in ("default",):
+                n += 1
+                tag = "axis=%s offset=%g direction=%s steps=%d" % (axis, off, direction, steps)
+                try:
+                    r = SynodicMap(orbit).compute(section_axis=axis, section_offset=off, plane_coords=tuple(plane), direction=direction)
+                except Exception as exc:
+                    viol.append(violation("cr3bp/raises", "SynodicMap.compute raised %s: %s [%s]" % (type(exc).__name__, str(exc)[:120], tag)))
+                    continue
+                pts = np.asarray(r.points, dtype=float).reshape(-1, 2)
+                # reference crossings strictly inside (0, T) (samples lying on the surface at the ends are don't-care)
+                ts = np.linspace(0.0, T, 20001)
+                g = np.array([dense.sol(t)[idx[axis]] - off for t in ts])
+                ref = []
+                for k in range(len(ts) - 1):
+                    if g[k] * g[k + 1] < 0:
+                        tc = brentq(lambda t: dense.sol(t)[idx[axis]] - off, ts[k], ts[k + 1], xtol=1e-14)
+                        d = 1 if g[k + 1] > g[k] else -1
+                        if direction is None or d == direction:
+                            if 2 * h < tc < T - 2 * h:
+                                y = dense.sol(tc)
+                                ref.append(np.array([y[idx[plane[0]]], y[idx[plane[1]]]]))
+                nontriv += len(ref)
+                tol = 5.0 * h * h + 1e-8     # linear interpolation error of a sample interval (second derivatives O(1) on this orbit), observed ~0.1 h^2
+                for rp in ref:
+                    dmin = float(np.min(np.linalg.norm(pts - rp, axis=1))) if len(pts) else float("inf")
+                    if dmin > tol:
+                        viol.append(violation("cr3bp/missed_or_misplaced", "reference crossing at plane point %s has no reported hit within %.1e (nearest %.3e; %d hits reported) [%s]" % (rp.tolist(), tol, dmin, len(pts), tag), dmin, tol))
+                        break
+                # every reported hit must be a reference crossing (or an end sample lying on the surface)
+                allowed = list(ref)
+                for tt in (0.0, T):
+                    y = dense.sol(tt)
+                    if abs(y[idx[axis]] - off) < 1e-6:
+                        allowed.append(np.array([y[idx[plane[0]]], y[idx[plane[1]]]]))
+                for p in pts:
+                    dmin = min([float(np.linalg.norm(p - a)) for a in allowed], default=float("inf"))
+                    if dmin > tol + 1e-6:
+                        viol.append(violation("cr3bp/spurious_hit", "reported hit %s is not a crossing of the reference orbit (nearest %.3e) [%s]" % (p.tolist(), dmin, tag), dmin, tol))
+                        break
+    return res(evals=n + nontriv, nontrivial=nontriv, viol=viol[:4], stats={"cr3bp_crossings_matched": nontriv}, sample={"orbit": "EM L%d halo Az=%g" % (params["point"], params["amp"]), "steps": steps, "maps": n, "reference_crossings": nontriv})
+
+
+KINDS = {"patterns": k_patterns, "pattern_one": k_pattern_one, "analytic": k_analytic, "batch": k_batch, "cr3bp": k_cr3bp}
 
 
 def cases(tier, seed):
@@ -393,6 +465,8 @@ def cases(tier, seed):
                         for grid in ("uniform", "nonuniform", "jagged"):
                             out.append(("analytic", {"normal": n, "offset": c, "w": 1.0 + 0.1 * o[5], "direction": d, "interp": interp,
                                                      "refine": refine, "grid": grid, "t0": t0, "t1": t1, "ladder": ladder}))
+    for steps in ((500, 2000) if tier == "quick" else (500, 1000, 2000, 4000)):
+        out.append(("cr3bp", {"point": 1, "amp": 0.2, "steps": steps, "sections": [["y", 0.0, ["x", "z"]], ["z", 0.01, ["x", "y"]], ["x", 0.83, ["y", "vy"]], ["vy", 0.0, ["x", "z"]]]}))
     out.append(("batch", {"normal": [0, 1, 0, 0, 0, 0], "offset": 0.1}))
     out.append(("batch", {"normal": [r2, 0, 0, 0, r2, 0], "offset": -0.2}))
     return out
